@@ -97,10 +97,18 @@ def restrictTo (h : Hap) (pos : List Nat) : Hap := pos.map (fun i => h.getD i 0)
 def polyCols (ph0 ph1 : List Hap) (n : Nat) : List (List Nat × List Nat) :=
   (List.range n).map fun i => (column ph0 i, column ph1 i)
 
+/-- the polyploid switch/flip decomposition of `compare_block`: as coded `compute_switch_flips_poly(ph0, ph1)` with
+costs 1/1 (the split between switches and flips of an optimal solution then depends on the hash order and on
+the order of the haplotypes, finding FC11b); repaired (`fixB`, fixes/FC11b.patch) with costs `k`/`k+1`,
+`k = ploidy * n + 1`, i.e. lexicographically (switches + flips, flips) -/
+def polySwitchFlips (fixA fixB : Bool) (ph0 ph1 : List Hap) (p n : Nat) : PolyResult :=
+  if fixB then polyCompare fixA p (p * n + 1) (p * n + 2) (polyCols ph0 ph1 n)
+  else polyCompare fixA p 1 1 (polyCols ph0 ph1 n)
+
 /-- `compare_block(phasing0, phasing1)`; `fixA` selects the repaired single-position behaviour of the
-polyploid calculator.  The polyploid `sf` is the representative under first-arg-min tie-breaking;
-`polyCompare … .admissible` gives every pair the code may return. -/
-def compareBlock (fixA : Bool) (ph0 ph1 : List Hap) : Option PhasingErrors :=
+polyploid calculator, `fixB` the repaired tie-breaking.  The polyploid `sf` is the representative under
+first-arg-min tie-breaking; `polyCompare … .admissible` gives every pair the code may return. -/
+def compareBlock (fixA fixB : Bool) (ph0 ph1 : List Hap) : Option PhasingErrors :=
   if !wellFormed ph0 ph1 then none else
   let p := ph0.length
   let n := (ph0.headD []).length
@@ -119,7 +127,7 @@ def compareBlock (fixA : Bool) (ph0 ph1 : List Hap) : Option PhasingErrors :=
     let m1 := ph1.map (restrictTo · mp)
     let sw := polyCompare fixA p 1 (2 * n * p + 1) (polyCols m0 m1 mp.length)
     -- compute_switch_flips_poly: all positions, costs 1/1
-    let sf := polyCompare fixA p 1 1 (polyCols ph0 ph1 n)
+    let sf := polySwitchFlips fixA fixB ph0 ph1 p n
     if sw.rep.2 ≠ 0 then none   -- `assert vector_error.flips == 0`
     else
       some { switches := sw.rep.1
@@ -226,15 +234,15 @@ structure PairState where
   total : PhasingErrors := ⟨0, 0, ⟨0, 0⟩, 0, 1⟩
 
 /-- the loop of `compare_pair` over `block_intersection.values()`; `none` = an exception -/
-def pairLoop (fixA fix3 : Bool) (ploidy : Nat) (ph0 ph1 : List (Option (Nat × List Nat))) (common : List Nat) :
+def pairLoop (fixA fixB fix3 : Bool) (ploidy : Nat) (ph0 ph1 : List (Option (Nat × List Nat))) (common : List Nat) :
     List (List Nat × List Nat) → PairState → Option PairState
   | [], st => some st
   | (_, block) :: rest, st =>
-    if block.length < 2 then pairLoop fixA fix3 ploidy ph0 ph1 common rest st else
+    if block.length < 2 then pairLoop fixA fixB fix3 ploidy ph0 ph1 common rest st else
     let p0 := (List.range ploidy).map (hapOf ph0 block)
     let p1 := (List.range ploidy).map (hapOf ph1 block)
     let positions := block.map (fun i => common.getD i 0)
-    match compareBlock fixA p0 p1 with
+    match compareBlock fixA fixB p0 p1 with
     | none => none
     | some e =>
       let bed := if ploidy = 2 then st.bed ++ bedRecords (p0.headD []) (p1.headD []) positions else st.bed
@@ -244,22 +252,22 @@ def pairLoop (fixA fix3 : Bool) (ploidy : Nat) (ph0 ph1 : List (Option (Nat × L
           match (if fix3 then agreementFixed p0 p1 else agreementFaithful p0 p1) with
           | none => none
           | some agr =>
-            pairLoop fixA fix3 ploidy ph0 ph1 common rest
+            pairLoop fixA fixB fix3 ploidy ph0 ph1 common rest
               { st1 with longest := block.length, longestErr := e, longestPos := positions, longestAgr := agr }
         else
-          pairLoop fixA fix3 ploidy ph0 ph1 common rest
+          pairLoop fixA fixB fix3 ploidy ph0 ph1 common rest
             { st1 with longest := block.length, longestErr := e, longestPos := positions }
-      else pairLoop fixA fix3 ploidy ph0 ph1 common rest st1
+      else pairLoop fixA fixB fix3 ploidy ph0 ph1 common rest st1
 
 /-- `compare([t0, t1], …)` with `ploidy`: everything `--tsv-pairwise`, `--switch-error-bed` and
 `--longest-block-tsv` are computed from.  `none` = the command dies with an exception. -/
-def comparePair (fixA fix3 : Bool) (ploidy : Nat) (t0 t1 : List Call) : Option PairResult :=
+def comparePair (fixA fixB fix3 : Bool) (ploidy : Nat) (t0 t1 : List Call) : Option PairResult :=
   let common := commonPositions [t0, t1]
   let ph0 := phasesOf t0 common
   let ph1 := phasesOf t1 common
   let blocks := jointBlocks [ph0, ph1] common.length
   let big := blocks.filter (fun b => decide (2 ≤ b.2.length))
-  match pairLoop fixA fix3 ploidy ph0 ph1 common blocks {} with
+  match pairLoop fixA fixB fix3 ploidy ph0 ph1 common blocks {} with
   | none => none
   | some st =>
     some { intersectionBlocks := big.length
@@ -292,8 +300,8 @@ def multiwayKeys (encs : List Hap) (m : Nat) : List Hap :=
     if hapLe s c then s else c
 
 /-- `compare_multiway`: (total compared pairs, histogram sorted by key); `none` = the `assert` on the first
-(smallest) bipartition fails because it is not the all-agree one (finding FC11c) -/
-def compareMultiway (tables : List (List Call)) : Option (Nat × List (Hap × Nat)) :=
+(smallest) bipartition fails because it is not the all-agree one (finding FC11c; `fixC` = assert removed) -/
+def compareMultiway (fixC : Bool) (tables : List (List Call)) : Option (Nat × List (Hap × Nat)) :=
   let common := commonPositions tables
   let phases := tables.map (phasesOf · common)
   let blocks := (jointBlocks phases common.length).filter (fun b => decide (2 ≤ b.2.length))
@@ -303,6 +311,6 @@ def compareMultiway (tables : List (List Call)) : Option (Nat × List (Hap × Na
   let hist := keys.foldl (fun acc k => insertKey k 1 acc) []
   match hist with
   | [] => some (total, [])
-  | (k, _) :: _ => if k.all (· == 0) then some (total, hist) else none
+  | (k, _) :: _ => if fixC || k.all (· == 0) then some (total, hist) else none
 
 end WhVerif.C11
